@@ -387,7 +387,7 @@ func c06Check(c *Ctx, cs *c06Case, sample bool) {
 }
 
 func c06Random(c *Ctx, i int, r *gen.R) {
-	spec := r.Table(gen.TableOpts{MaxCols: 5, MaxRows: 6, ZeroHeaderOK: true, MinCols: 0, Noise: gen.NoiseSkipable | gen.NoiseAlign,
+	spec := r.Table(gen.TableOpts{MaxCols: 5, MaxRows: 6, ZeroHeaderOK: true, MinCols: 0, Noise: gen.NoiseSkipable | gen.NoiseAlign | gen.NoiseCallbacks,
 		Item: func(r *gen.R) gen.ItemSpec {
 			if r.Chance(1, 30) {
 				return r.AnyItem(c06Fam, 4, 1)
